@@ -65,7 +65,10 @@ class Estimandizer:
 
             baseline_col = f"{BASELINE_PREFIX}{pointer}"
 
-            if baseline_col not in data_df.columns:
+            # the margin estimand also redefines the weights as the two party vote, so it cannot be skipped just because
+            # a baseline_margin column is already there (as in a file written by save_data): add_weights above has reset them
+            recompute_margin = estimand == "margin" and {f"{BASELINE_PREFIX}dem", f"{BASELINE_PREFIX}gop"} <= set(data_df.columns)
+            if baseline_col not in data_df.columns or recompute_margin:
                 data_df, __ = globals()[estimand](data_df, BASELINE_PREFIX)
 
             if not historical:
